@@ -11,7 +11,7 @@ from ..model import AnalysisError, FunctionInfo, bind_args
 from ..quant import absorb_nan_guard, Normaliser, show, top_conjuncts, top_disjuncts
 from ..roles import roles_of
 from ..terms import call_name, canon, const_num, dotted, guard_of, norm_stmt
-from .common import attr_stores, iter_stores, reaching_assignments, self_attr_of, store_base, pos
+from .common import attr_stores, iter_stores, kw, reaching_assignments, self_attr_of, store_base, pos
 
 EXPLANATION = (
     "R1 guard checklist: the raise conditions of the validator (every `if c: raise ValueError` reachable only through the complements of "
@@ -709,3 +709,24 @@ def _dtype_rule(ctx, prog, R, include_validator=True):
                      construct=f"{canon(base)}[..] = {canon(v)[:60]} (dtype inherited)")
         else:
             ctx.ok(val, s, f"{canon(base)} in-place float store is safe")
+    # the same store spelled as a ufunc's out= argument: np.clip(x0, lo, hi, out=x0) casts the float result back into the
+    # caller's dtype (numpy refuses the cast for integer arrays: a TypeError for the integer spelling of a valid problem)
+    for c_ in ast.walk(val.node):
+        if not (isinstance(c_, ast.Call) and isinstance(c_.func, ast.Attribute) and isinstance(c_.func.value, ast.Name) and c_.func.value.id == "np"):
+            continue
+        out = kw(c_, "out")
+        if out is None or not isinstance(out, (ast.Name, ast.Subscript, ast.Attribute)):
+            continue
+        base = store_base(out) if isinstance(out, ast.Subscript) else out
+        st = fv.state_before(c_)
+        if st is None:
+            continue
+        tg = fv.policy.eval(base, st, fv)
+        others = [fv.policy.eval(a_, st, fv) for a_ in c_.args if canon(a_) != canon(out)]
+        if not any("FLT" in o_ or _float_valued(a_) for o_, a_ in zip(others, [a_ for a_ in c_.args if canon(a_) != canon(out)])):
+            continue
+        if "INH" in tg and "FLT" not in tg:
+            ctx.fail(val, c_, f"the float result of {canon(c_.func)} is written back into {canon(out)} through out=, an array that keeps the caller's dtype: the integer spelling of the same vector is truncated or refused (TypeError)",
+                     construct=f"{canon(c_.func)}(.., out={canon(out)}) (dtype inherited)")
+        else:
+            ctx.ok(val, c_, f"{canon(out)} is float before the out= store")
